@@ -14,7 +14,7 @@ RULE = ("random shots (winds, inclined, canted, all tables) x request families: 
         "request, variant); non-trivial when the variant differs from the base in at least one request parameter and "
         "at least 2 rows are shared")
 MUST_OBSERVE = ["request_pairs", "row_pairs_compared", "variant_extra", "variant_longer", "variant_coarser", "variant_finer",
-                "variant_time_step", "subset_checks", "extra_only_rows_checked", "rangeerror_results", "variant_other_step"]
+                "variant_time_step", "subset_checks", "extra_only_rows_checked", "rangeerror_results", "variant_other_step", "variant_sub_step"]
 ASSUMPTIONS = ["rows are matched by distance to 1e-9 relative among rows carrying the RANGE flag; the terminal row of an "
                "incomplete trajectory and the flag-less 'second point' row are not range-card rows and are not compared"]
 REL = 1e-9
@@ -146,6 +146,10 @@ def gen_case(rng):
          "expect_superset": True},
         {"kind": "finer", "request": dict(base, step_ft=step / k, extra=True, range_ft=r * 1.25), "expect_superset": True},
     ]
+    # a recording step below the maximum integration step (0.25 <= s < 0.5 ft: every multiple still gets a row)
+    sub = step / max(1, round(step / 0.3))
+    if 0.26 <= sub < 0.5 and not reach:
+        variants.append({"kind": "sub_step", "request": dict(base, step_ft=sub, range_ft=min(r, 4 * step)), "expect_superset": False})
     case = {"shot": s, "base": base, "variants": variants}
     if rng.random() < 0.3:
         case["config"] = {"max_calc_step_size_feet": rng.choice([0.25, 1.0]),
